@@ -392,12 +392,24 @@ class Ctx:
         self.notes = []
         self.proof = None
         self.extra = {}
+        try:
+            from harness import anchors
+
+            self.anchors_changed = anchors.changed(REPO, prop)
+        except Exception as e:  # never let the fingerprinting break a check
+            self.anchors_changed = []
+            self.notes.append("anchors: %r" % (e,))
 
     def rng(self, stream):
         return random.Random("%s:%s:%s" % (self.seed, self.prop, stream))
 
     def budget(self, quick, thorough):
-        return thorough if self.tier == "thorough" else quick
+        if self.tier == "thorough":
+            return thorough
+        if self.anchors_changed:
+            # an anchored function changed since the model was validated: look harder (not an alarm)
+            return min(thorough, 6 * quick)
+        return quick
 
     def note_case(self, case, nontrivial=True):
         self.evaluations += 1
@@ -520,6 +532,7 @@ def write_evidence(ctx, violations, level="proof"):
         "programs": sum(s.get("cases", 0) for n, s in ctx.streams.items() if not n.startswith("eval:")),
         "property_failures": ctx.failures[:5],
         "known_findings_seen": ctx.known_seen,
+        "anchors_changed": ctx.anchors_changed,
         "notes": ctx.notes,
     }
     for k, v in ctx.extra.items():
